@@ -836,6 +836,9 @@ class Translator(DirectiveFactory):
 
             elif kind is SUB:
                 directives, substream = data
+                # The list is shared with the template (and with every other
+                # render of it): reorder a copy, not the list itself
+                directives = list(directives)
                 current_domain = None
                 current_context = None
                 for idx, directive in enumerate(directives):
